@@ -79,7 +79,7 @@ def run(chk):
     for c, g in graphs.items():
         scheds = _schedules(g)
         n_all = len(scheds)
-        cap = chk.pick(400, 4000)
+        cap = chk.pick(400, 2500)
         if len(scheds) > cap:
             scheds.sort(key=lambda s: -sum(1 for x in s["schedule"] if x[0] == "crash"))
             keep, rest = scheds[: cap // 2], scheds[cap // 2:]
